@@ -155,8 +155,7 @@ func (f *frame) execCall(v ssa.Value, cm *ssa.CallCommon, g Term, st *State) err
 	sp, callee := f.calleeSpec(cm)
 	// dynamic call through a function value
 	if callee == nil && !cm.IsInvoke() {
-		ord := f.dynOrd
-		f.dynOrd++
+		ord := f.dynOrdinal(cm)
 		fv := f.val(cm.Value)
 		f.safety("nil", g, Ne(fv, Term{"0", SFn}), instrOf(v, f))
 		if f.spec != nil {
